@@ -1571,7 +1571,7 @@ func TestVerifC15(t *testing.T) {
 			famKeys[fam] = append(famKeys[fam], f.Key)
 		}
 	}
-	for _, fam := range []string{"alphabet", "family_ret", "family_conv", "family_obj", "family_loop"} {
+	for _, fam := range []string{"alphabet", "family_ret", "family_conv", "family_obj", "family_loop", "family_big"} {
 		if len(famKeys[fam]) > 0 {
 			res.Note("first disagreements in %s: %s", fam, strings.Join(famKeys[fam], "  "))
 		}
